@@ -79,7 +79,10 @@ impl BroadcastReceiver {
     }
 
     pub fn length(&self) -> i32 {
-        self.buffer.get::<i32>(record_descriptor::length_offset(self.record_offset)) - record_descriptor::HEADER_LENGTH
+        // may be called on a record that is being overwritten (validate() tells afterwards): must not overflow
+        self.buffer
+            .get::<i32>(record_descriptor::length_offset(self.record_offset))
+            .wrapping_sub(record_descriptor::HEADER_LENGTH)
     }
 
     pub fn buffer(&self) -> &AtomicBuffer {
@@ -92,30 +95,41 @@ impl BroadcastReceiver {
         let mut cursor = self.next_record;
 
         if tail > cursor {
-            if !self.do_validate(cursor as Index) {
+            if !self.do_validate(cursor) {
                 let _ignored = self.lapped_count.fetch_add(1, Ordering::SeqCst);
                 cursor = self.buffer.get::<i64>(self.latest_counter_index);
             }
 
-            let mut record_offset: Index = cursor as Index & self.mask;
+            loop {
+                let record_offset: Index = cursor as Index & self.mask;
+                let length = self.buffer.get::<i32>(record_descriptor::length_offset(record_offset));
+                let is_padding =
+                    AeronCommand::Padding as i32 == self.buffer.get::<i32>(record_descriptor::type_offset(record_offset));
+                // a padding record is followed by the next record at the start of the buffer
+                let wrapped_length = if is_padding {
+                    self.buffer.get::<i32>(record_descriptor::length_offset(0))
+                } else {
+                    0
+                };
 
-            self.cursor = cursor;
-            self.next_record = cursor
-                + align(
-                    self.buffer.get::<i32>(record_descriptor::length_offset(record_offset)) as Index,
-                    record_descriptor::RECORD_ALIGNMENT,
-                ) as i64;
+                // The words read above may only be interpreted if the transmitter did not overwrite them meanwhile.
+                if self.validate_at(cursor) {
+                    self.cursor = cursor;
+                    self.next_record = cursor + align(length as Index, record_descriptor::RECORD_ALIGNMENT) as i64;
+                    self.record_offset = record_offset;
 
-            if AeronCommand::Padding as i32 == self.buffer.get::<i32>(record_descriptor::type_offset(record_offset)) {
-                record_offset = 0;
-                self.cursor = self.next_record;
-                self.next_record += align(
-                    self.buffer.get::<i32>(record_descriptor::length_offset(record_offset)) as Index,
-                    record_descriptor::RECORD_ALIGNMENT,
-                ) as i64;
+                    if is_padding {
+                        self.record_offset = 0;
+                        self.cursor = self.next_record;
+                        self.next_record += align(wrapped_length as Index, record_descriptor::RECORD_ALIGNMENT) as i64;
+                    }
+                    break;
+                }
+
+                let _ignored = self.lapped_count.fetch_add(1, Ordering::SeqCst);
+                cursor = self.buffer.get::<i64>(self.latest_counter_index);
             }
 
-            self.record_offset = record_offset;
             is_available = true;
         }
 
@@ -123,12 +137,20 @@ impl BroadcastReceiver {
     }
 
     pub fn validate(&self) -> bool {
-        atomics::acquire();
-        self.do_validate(self.cursor as Index)
+        self.validate_at(self.cursor)
     }
 
-    fn do_validate(&self, cursor: Index) -> bool {
-        cursor + self.capacity > self.buffer.get_volatile::<i64>(self.tail_intent_counter_index) as Index
+    /// Checks, after the fact, that nothing read from `cursor` onwards has been overwritten by the transmitter.
+    fn validate_at(&self, cursor: i64) -> bool {
+        // An acquire fence alone lets the compiler sink the preceding plain loads below the tail intent load
+        // (seen in release builds), which turns "read, then validate" into "validate, then read".
+        atomics::thread_fence();
+        self.do_validate(cursor)
+    }
+
+    fn do_validate(&self, cursor: i64) -> bool {
+        // counters are 64-bit byte counts: comparing them truncated to Index breaks beyond 2^31 bytes of traffic
+        cursor + self.capacity as i64 > self.buffer.get_volatile::<i64>(self.tail_intent_counter_index)
     }
 }
 
